@@ -196,8 +196,8 @@ fn free_port() -> u16 {
         let n = NEXT_PORT.fetch_add(1, std::sync::atomic::Ordering::SeqCst);
         // one slot of 7500 ports per process (a thorough run uses < 7500 cases): no port is handed out twice
         // within a process, so a case never meets another case's unit on "its" port
-        let base = 10000 + (std::process::id() as usize % 7) * 7500;
-        let port = (base + n % 7500) as u16;
+        let base = verif_harness::port_slot(2000);
+        let port = (base + n % 2000) as u16;
         if std::net::TcpListener::bind(("127.0.0.1", port)).is_ok() { return port; }
     }
 }
